@@ -433,6 +433,16 @@ pub fn oracle(c: &CurveCase, cur: &Result<Curve, String>, out: &mut Out) -> Opti
     let natural = nat.dist();
     let d11 = |p: &[Pos]| p.last().map_or(false, |q| q.x.is_nan() || q.y.is_nan());
 
+    // IEEE narrowing of "finite coordinates" (the other side of the 2^60 overflow bound): a
+    // non-zero segment shorter than ~1e-18 has a squared length that underflows in f32, its
+    // computed length is 0 and its direction cannot be normalised (witness: C16_underflow_witness)
+    if npath.windows(2).any(|w| {
+        let l = f64len(w[0], w[1]);
+        l > 0.0 && l < 1e-18
+    }) {
+        out.count("oracle:outside-quantifier(underflow)");
+        return None;
+    }
     // D14: an ill-conditioned three-point perfect curve (nearly collinear or nearly coincident
     // points) puts non-finite vertices into the *unadjusted* path; everything downstream
     // (lengths, distance) is then non-finite as well
@@ -629,6 +639,48 @@ pub fn generate(tier: &str, seed: u64, out: &mut Out) {
         let pts = vec![Cp { x: f32::NAN, y: 0.0, ty: 3, deg: 0 }, Cp { x: 1.0, y: f32::INFINITY, ty: 0, deg: 0 }, Cp { x: 3.0, y: 1.0, ty: 0, deg: 0 }];
         run_case(&CurveCase { mode: 0, pts: pts.clone(), len: None }, "none", true, out);
         run_case(&CurveCase { mode: 0, pts, len: Some(2.0) }, "inside", true, out);
+    }
+    // non-finite, subnormal and signed-zero coordinates through every segment kind
+    // (outside the quantifier: correspondence only)
+    {
+        let inf = f32::INFINITY;
+        let nan = f32::NAN;
+        let sub = 1e-40f32;
+        let specials: Vec<Vec<(f32, f32)>> = vec![
+            vec![(0.0, 0.0), (inf, 1.0), (2.0, 3.0)],
+            vec![(0.0, 0.0), (1.0, nan), (2.0, 3.0)],
+            vec![(nan, nan), (nan, nan), (nan, nan)],
+            vec![(0.0, 0.0), (-inf, inf), (5.0, 5.0), (7.0, 1.0)],
+            vec![(sub, 0.0), (0.0, sub), (-sub, -sub)],
+            vec![(0.0, -0.0), (-0.0, 0.0), (3.0, -0.0), (-0.0, 4.0)],
+            vec![(1e6, -1e6), (-1e6, 1e6), (1e6, 1e6)],
+            vec![(3.0e38, 0.0), (0.0, 3.0e38), (-3.0e38, 0.0)],
+            vec![(1e19, 0.0), (0.0, 1e19), (1e19, 1e19), (5.0, 5.0)],
+        ];
+        let mut k = 0usize;
+        for pos in &specials {
+            for ty in [1u8, 2, 3, 4] {
+                // huge finite coordinates make the Bezier subdivision explode: linear / Catmull / arcs only
+                // (an infinite coordinate followed by two finite ones never becomes "flat": the real
+                // loop runs until memory is exhausted -- observed with [(0,0) (-inf,inf) (5,5) (7,1)];
+                // the model answers OutOfFuel.  Not generated.)
+                let bez = ty == 2 || (ty == 4 && pos.len() != 3);
+                if bez && (pos.iter().any(|p| p.0.is_finite() && p.0.abs() > 1e7) || (pos.len() > 3 && pos.iter().any(|p| p.0.is_infinite()))) {
+                    continue;
+                }
+                let mut lay = vec![(0u8, 0i32); pos.len()];
+                lay[0] = (ty, 0);
+                let pts = make(pos, &lay);
+                if too_expensive(&pts, 200_000) {
+                    continue;
+                }
+                for len in [None, Some(2.5), Some(1e12)] {
+                    k += 1;
+                    out.count("source:special-coordinates");
+                    run_case(&CurveCase { mode: (k % 2) as u8, pts: pts.clone(), len }, "special", true, out);
+                }
+            }
+        }
     }
     // sliders of the bundled maps (realistic curves)
     {
